@@ -17,7 +17,7 @@ import os
 import time
 
 from lib import tlc
-from lib.common import Machinery, import_spsdk, rng, say, scratch, seed, sha
+from lib.common import Machinery, import_spsdk, rng, say, scratch, sha
 from lib.par import pmap
 from lib.verdict import Verdict
 
@@ -109,8 +109,8 @@ def targets(lay):
             if f["hidden"] or f.get("computed") or f["width"] <= 0 or fn[f["name"]] != 1 or f.get("shr_unknown") or f["off"] + f["width"] > r["width"]:
                 continue
             res["compfield" if r["comp"] else "field"].append((i, k))
-        if r["parent"] == 0 and not r["comp"]:
-            res["reg"].append(i)
+        if r["parent"] == 0 and not r["comp"] and A.config_faithful(r):
+            res["reg"].append(i)      # (registers whose bit-fields cannot carry every value are reported by the Layout clauses, not written whole)
     return res
 
 
@@ -444,8 +444,9 @@ class Runner:
         if not gi:
             return []
         g = lay["regs"][gi - 1]
-        if g["kind"] != "group" or g["width"] != g.get("subs_width") or not g["reverse"]:
+        if g["kind"] != "group" or not g["reverse"] or not g["subs"]:
             return []
+        # (a group narrower than its declared width is written all the same: the hash must still be found in the binary over the full declared width)
         width = g["width"]
         mode = s.get("mode", "bytes")
         if mode == "keys" and lay.get("rot_type") == "cert_block_21":
@@ -514,7 +515,7 @@ def run_trace(ad, lay, sched, r, tid, lay_ref):
         evs.append(ev)
         if ev.get("ok") is False or (s["a"] == "Template" and not ev["yaml"]):
             break          # the spec rejects this event; nothing meaningful can follow
-    return {"id": tid, "lay": lay_ref, "area": ad.ident, "ev": evs}
+    return {"id": tid, "lay": lay_ref, "area": ad.ident, "ev": evs, "steps": list(sched)}
 
 
 SCHED_TEMPLATE = [{"a": "NewObject"}, {"a": "Template"}, {"a": "LoadConfig"}, {"a": "Export"}, {"a": "Parse"}, {"a": "Export"}, {"a": "GetConfig", "check": True}, {"a": "LoadConfig"},
@@ -532,6 +533,12 @@ SCHED_TEMPLATE_SHORT = [{"a": "NewObject"}, {"a": "Template"}, {"a": "LoadConfig
 SCHED_VALUES_SHORT = [{"a": "NewObject"}, {"a": "SetValues", "cls": "field", "val": "mix", "n": 8}, {"a": "SetValues", "cls": "group", "val": "rnd", "n": 4}, {"a": "Export"}, {"a": "Parse"}, {"a": "Export"}, {"a": "GetConfig", "check": True},
                       {"a": "LoadConfig"}, {"a": "Export"}, {"a": "NewObject"}, {"a": "Export"}]
 SLOW_KINDS = ("xmcd", "fuses")
+# thorough tier, class representatives: every value class of the boundary menu on fresh seeded targets, each followed by both round trips
+SCHED_SWEEP = [{"a": "NewObject"}] + [s for vc in ("zero", "ones", "top", "one", "alt", "maxm1", "rnd") for s in (
+    {"a": "SetValues", "cls": "field", "val": vc, "n": 12}, {"a": "SetValues", "cls": "compfield", "val": vc, "n": 4}, {"a": "SetValues", "cls": "reg", "val": vc, "n": 4},
+    {"a": "SetValues", "cls": "group", "val": vc, "n": 3}, {"a": "Export"}, {"a": "Parse"}, {"a": "Export"}, {"a": "GetConfig"}, {"a": "LoadConfig"}, {"a": "Export"})]
+SCHED_SWEEP_SHORT = [{"a": "NewObject"}] + [s for vc in ("ones", "alt", "rnd") for s in (
+    {"a": "SetValues", "cls": "field", "val": vc, "n": 12}, {"a": "Export"}, {"a": "Parse"}, {"a": "Export"}, {"a": "GetConfig"}, {"a": "LoadConfig"}, {"a": "Export"})]
 
 
 def rich_hash(lay):
@@ -613,13 +620,18 @@ def validate(v, results, label):
         slim = [{"id": n, "lay": t["lay"], "ev": t["ev"]} for n, t in enumerate(chunk)]
         rej, res = tlc.tv(SPEC, "CfgAreaTrace", slim, env={"LAYOUT_FILE": lay_file}, heap="6g", timeout=1500)
         check_tv_output(res, rej)
-        return {chunk[n]["id"]: x for n, x in rej.items()}, res.distinct
+        lays = res.tuples("LAY")
+        if len(lays) != res.out.count('<<"LAY"'):
+            raise Machinery("a LAY line of the trace validation could not be read back")
+        return {chunk[n]["id"]: x for n, x in rej.items()}, res.distinct, [(chunk[x[0]]["id"], x[1], x[2]) for x in lays]
 
-    rej_all = {}
-    for rej, distinct in pmap(tv_chunk, range(nchunks), procs=min(nchunks, 8), chunksize=1) if nchunks >= 4 else [tv_chunk(k) for k in range(nchunks)]:
+    rej_all, lay_all = {}, []
+    for rej, distinct, lays in pmap(tv_chunk, range(nchunks), procs=min(nchunks, 8), chunksize=1) if nchunks >= 4 else [tv_chunk(k) for k in range(nchunks)]:
         rej_all.update(rej)
+        lay_all += lays
         v.extra["tv_states"] = v.extra.get("tv_states", 0) + distinct
     v.traces(len(traces))
+    validate.layout_findings = lay_all
     return rej_all, names
 
 
@@ -657,6 +669,13 @@ def report(v, results, rej, names):
     for res in results:
         for t in res.get("traces", []):
             by_id[t["id"]] = (t, res)
+    for tid, clause, reg in sorted(getattr(validate, "layout_findings", [])):
+        t, res = by_id[tid]
+        a = t["area"]
+        nm = names.get(res["layhash"]) or []
+        key = f"C12/{a['kind']}/{a['family']}/{a['rev']}/{a['sub'] or '-'}/Layout/{clause}" + (("/" + str(nm[reg - 1]).replace("/", "_").replace(" ", "_")) if reg and reg <= len(nm) else "")
+        v.violation(key, f"{tid}: the database content of the area violates clause {clause}" + (f" at register {nm[reg - 1]}" if reg and reg <= len(nm) else ""),
+                    {"area": a, "trace_id": tid, "failed_event": 1, "clause": clause, "register": reg, "event": {"a": "Layout"}, "steps": [], "info": res.get("info")})
     for tid, rj in sorted(rej.items()):
         t, res = by_id[tid]
         if rj[3] == "none":
@@ -664,7 +683,7 @@ def report(v, results, rej, names):
                             f"shape of the behaviour: {json.dumps(strip_event(t['ev'][min(rj[0], len(t['ev']) - 1)]))[:600]}")
         key, ev = finding_key(t, rj, names.get(res["layhash"]))
         what = f"{tid}: event #{rj[0] + 1} {rj[2]} violates clause {rj[3]}" + (f" at register {names[res['layhash']][rj[4] - 1]}" if rj[4] else "") + (f" ({ev.get('err')})" if ev.get("err") else "")
-        v.violation(key, what, {"area": t["area"], "trace_id": tid, "failed_event": rj[0] + 1, "clause": rj[3], "register": rj[4], "event": ev,
+        v.violation(key, what, {"area": t["area"], "trace_id": tid, "failed_event": rj[0] + 1, "clause": rj[3], "register": rj[4], "event": ev, "steps": t.get("steps"),
                                 "schedule": [{k: x for k, x in e.items() if k in ("a", "seal", "w", "shown")} for e in t["ev"]], "info": res.get("info")})
 
 
@@ -703,7 +722,6 @@ def gen_schedules(v, tiny_file, num, depth):
 def run(tier):
     import_spsdk()
     v = Verdict(PROP, tier)
-    r = rng(PROP)
     check_registers_copy(v)
 
     # ---- MC on the small layouts
@@ -756,6 +774,8 @@ def run(tier):
             if (tier == "quick" and pick < 0.34 and not short) or (tier != "quick" and is_rep and a["kind"] != "xmcd"):
                 for k in range(2 if tier == "quick" else 6):
                     sl.append((f"hist{k}", scheds[(idx * 7 + k) % len(scheds)]))
+            if tier != "quick" and is_rep:
+                sl.append(("sweep", SCHED_SWEEP_SHORT if a["kind"] == "xmcd" else SCHED_SWEEP))
             if a["kind"] == "cmpa":
                 sl.append(("rotkeys", [{"a": "NewObject"}, {"a": "SetValues", "cls": "rotkh", "mode": "keys", "nkeys": 1}, {"a": "Export"}, {"a": "Parse"}, {"a": "Export"},
                                        {"a": "SetValues", "cls": "rotkh", "mode": "keys", "nkeys": 2, "big": False}, {"a": "Export"}]))
@@ -888,12 +908,19 @@ def canary(v, tiny_tla, tiny_file, behs):
     bads.append((t, "GapsFilled"))
     for k, (t, _) in enumerate(bads, 1):
         t["id"] = k
-    rej, cres = tlc.tv(SPEC, "CfgAreaTrace", [good] + [t for t, _ in bads], env={"LAYOUT_FILE": tiny_file}, heap="4g")
+    # layout clauses: the small layouts are consistent, a copy with a group declared wider than its sub-registers is not
+    bad_lay = json.loads(json.dumps(tiny_tla[0]))
+    gi = next(i for i, x in enumerate(bad_lay["regs"]) if x["kind"] == "group")
+    bad_lay["regs"][gi]["declw"] = bad_lay["regs"][gi]["subsw"] + 32
+    cfile = write_layouts(tiny_tla + [bad_lay], "c12-canary-layouts.json")
+    lay_traces = [{"id": 100 + k, "lay": k + 1, "ev": [{"a": "Layout"}]} for k in range(len(tiny_tla) + 1)]
+    rej, cres = tlc.tv(SPEC, "CfgAreaTrace", [good] + [t for t, _ in bads] + lay_traces, env={"LAYOUT_FILE": cfile}, heap="4g")
     check_tv_output(cres, rej)
     want = {k: c for k, (_, c) in enumerate(bads, 1)}
     got = {k: x[3] for k, x in rej.items()}
-    if got != want:
-        raise Machinery(f"canary failed: rejected {rej}, expected exactly {want}")
+    lays = [tuple(x[:2]) for x in cres.tuples("LAY")]
+    if got != want or lays != [(100 + len(tiny_tla), "GroupsConsistent")]:
+        raise Machinery(f"canary failed: rejected {rej}, layout findings {lays}; expected exactly {want} and GroupsConsistent on the inconsistent copy only")
     v.extra["canary"] = ("a behaviour generated by the spec (states included) is accepted as a trace; the same trace with one flipped state bit / a wrong export size / "
                          "one flipped bit of the decoded binary / a false gap fact is rejected at clauses " + ", ".join(want.values()))
 
@@ -918,8 +945,9 @@ def probe_hidden(v):
 
 
 def replay(path):
-    import_spsdk()
     body = json.load(open(path))
+    os.environ["VERIF_SEED"] = str(body.get("seed", 0))      # the concretisation of the write classes is a function of (seed, area, schedule name)
+    import_spsdk()
     w = body["witness"]
     ident = w["area"]
     ad = A.make(ident)
@@ -929,31 +957,25 @@ def replay(path):
     if name == "layout":
         t = {"id": w["trace_id"], "lay": 1, "area": ident, "ev": [{"a": "Layout"}]}
     else:
-        sched = None
-        if name == "template":
-            sched = SCHED_TEMPLATE
-        elif name == "values":
-            sched = SCHED_VALUES
-        elif name == "alias":
-            sched = SCHED_ALIAS if (ad.has_binary and ad.kind != "xmcd") else SCHED_ALIAS_NOBIN
-        if (ad.kind == "xmcd" or (body.get("tier") == "quick" and ad.kind in SLOW_KINDS)) and name in ("template", "values"):
-            sched = SCHED_TEMPLATE_SHORT if name == "template" else SCHED_VALUES_SHORT
-        if sched is None:
-            # generated schedule: rebuild the steps from the witness (classes are re-concretised with the same seed)
-            sched = []
-            for e in w["schedule"]:
-                sched.append({"a": e["a"], "seal": e.get("seal", False), "cls": "field", "val": "mix"})
-            say("replay: generated schedule re-created from the witness (write classes approximated)")
-        t = run_trace(ad, lay, sched, rng(PROP, ad.key(), name), w["trace_id"], 1)
+        t = run_trace(ad, lay, w["steps"], rng(PROP, ad.key(), name), w["trace_id"], 1)
+    for e in t["ev"]:
+        facts = {k: e[k] for k in e if k in ("ok", "struct", "yaml", "schema", "size", "gaps", "eqprev", "verified", "rotkh", "crc", "err", "mismatch", "cause")}
+        say(f"  {e['a']:<10} {json.dumps(e.get('shown'))[:160] if e.get('shown') else ''} {facts}")
     t["ev"] = [strip_event(e) for e in t["ev"]]
     lay_file = write_layouts([tl], "c12-replay-layout.json")
     t["id"] = 0
     rej, rres = tlc.tv(SPEC, "CfgAreaTrace", [t], env={"LAYOUT_FILE": lay_file}, heap="4g")
     check_tv_output(rres, rej)
+    lays = rres.tuples("LAY")
+    if lays:
+        say(f"VIOLATION property=C12 replay={path}")
+        for x in lays:
+            say(f"  key={body.get('key')}: the database content violates clause {x[1]}" + (f" at register {lay['regs'][x[2] - 1]['name']}" if x[2] else ""))
+        return 1
     if rej:
         rj = rej[0]
         say(f"VIOLATION property=C12 replay={path}")
-        say(f"  rejected at event {rj[0] + 1} ({rj[2]}), clause {rj[3]}, register {lay['regs'][rj[4] - 1]['name'] if rj[4] else '-'}")
+        say(f"  key={body.get('key')}: rejected at event {rj[0] + 1} ({rj[2]}), clause {rj[3]}, register {lay['regs'][rj[4] - 1]['name'] if rj[4] else '-'}")
         return 1
     say("replay: trace accepted by the spec")
     return 0
